@@ -229,7 +229,13 @@ func (r *funcRun) ret(st *State, x *ssa.Return) {
 			if cur == old {
 				continue
 			}
-			_ = allocs
+			if _, targeted := targets[comp]; !targeted && !allocs[comp] {
+				// the component has a new version on this path although the contract neither lists it under
+				// modifies nor under allocates: a caller would keep reading its old version (also at the
+				// references this function allocated). Undeclared write: fails unless the path is infeasible.
+				r.emit(st, "frame-undeclared", "="+comp, nil, BoolLit(false), r.c.Src)
+				continue
+			}
 			g := r.frameFormula(sig, cur, old, r.old.alloc, targets[comp], false)
 			r.emit(st, "frame", "="+comp, nil, g, r.c.Src)
 		}
